@@ -185,11 +185,15 @@ def native_run(target, inputs, choices):
             for part in icls.split('.'):
                 cls = getattr(cls, part)
 
-            def nfb(obj, mname, cls=cls):
+            def nfb(obj, mname, cls=cls, ifile=ifile, icls=icls):
                 fn = cls.__dict__.get(mname)
                 if isinstance(fn, (str, int, float, tuple, list, dict, frozenset, set, __import__('re').Pattern)):
                     import copy as _copy
                     return _copy.deepcopy(fn)          # a class-level constant: a private copy, as in the symbolic run
+                if fn is None:
+                    d = _ex.constructor_default(ifile, icls, mname)
+                    if d is not None:
+                        return _FieldDefault(d[1])
                 if fn is None or not callable(getattr(fn, '__func__', fn)):
                     return None
                 if isinstance(fn, staticmethod):
@@ -275,6 +279,9 @@ def explore_chunk(target, work, limit, carve_names, tier, cross_check=True):
                     v = k.__dict__.get(mname, None)
                     if isinstance(v, (str, int, float, tuple, list, dict, frozenset, set, __import__('re').Pattern)):
                         return _copy.deepcopy(v)
+                    d = _ex.constructor_default(ifile, icls, mname)
+                    if d is not None:
+                        return _FieldDefault(d[1])
                     return None
                 _, iglobs = _ex.module_globals(ifile)
                 rep.inlined[icls + '.' + mname] = iex.describe()
@@ -404,6 +411,13 @@ def _account_path(target, rep, res, carve, tier, cross_check):
     if len(rep.path_samples) < 3 and res.outcome == 'done':
         rep.path_samples.append({"path": pid, "choices": dict(ctx.choices), "outcome": repr(res.value)[:200],
                                  "pc_size": len(ctx.pc)})
+
+
+class _FieldDefault:
+    """wrapper: the value the real constructor gives to an instance field (may legitimately be None)"""
+
+    def __init__(self, value):
+        self.value = value
 
 
 def _second_sampled(target, pid, label):
